@@ -85,17 +85,34 @@ POLL_CFGS = [dict(family='ET', tag=t, power=p, refused=rf, battery_mode=bm)
             [dict(family='DT', tag=t, power=5000, refused=rf, battery_mode=0) for t in ('DTU', 'DSN') for rf in ((), ('meter',))]
 
 
+def _healthy(a):
+    """register content every sensor can interpret: a valid inverter clock (ET 35100.., DT 30100..), small values elsewhere"""
+    clock = {0: 0x180A, 1: 0x030C, 2: 0x1E2D}
+    for base in (35100, 30100):
+        if base <= a <= base + 2:
+            return clock[a - base]
+    return (a * 7) % 1000
+
+
+# register contents that change from poll to poll on one object: interpretable -> uninterpretable -> interpretable ...
+CHANGING = {'changing-a': ('healthy', 'all-ffff', 'healthy', 'all-0000', 'healthy', 'ramp'),
+            'changing-b': ('all-0000', 'healthy', 'healthy', 'all-6363', 'all-ffff', 'healthy')}
+
+
 def job_polls(j):
     """Several polls of one configured object (capability fallbacks happen on the way): every call either fails with an
     InverterError or returns a dict that has every id of sensors(); sensors() itself and a single read keep working."""
     cfg, fname = j
-    r = make_rig(cfg, fill=FILLS[fname])
+    fills = dict(FILLS, healthy=_healthy)
+    seq = CHANGING.get(fname, (fname,) * 4)
+    r = make_rig(cfg, fill=fills[seq[0]])
     inv = r.inv
     if r.call(inv.read_device_info)[0] != 'ok':
         return 0, []
     vio = []
     n = 0
-    for i in range(4):
+    for i in range(len(seq)):
+        r.dev.rf.fill = fills[seq[i]]
         res = r.call(inv.read_runtime_data)
         n += 1
         ls = world.listed(inv)
@@ -138,7 +155,7 @@ def run_part(tier, seed, rep):
                 for b in bad[seed % step::step]:
                     jobs.append((c, 'all-0000', (s.id_, b)))
     total = 0
-    for n, res in pmap(job_polls, [(c, f) for c in POLL_CFGS for f in ('ramp', 'all-ffff', 'all-0000')], chunksize=2):
+    for n, res in pmap(job_polls, [(c, f) for c in POLL_CFGS for f in ('ramp', 'all-ffff', 'all-0000', 'changing-a', 'changing-b')], chunksize=2):
         total += n
         rep.add_many(res)
     for n, res in pmap(job, jobs, chunksize=2):
